@@ -24,7 +24,7 @@ void ob_c04_diagonal(const mk_t<K,size_t,R>& shape_, const mk_t<K,size_t,R-1>& i
     OBLIGE("C04.diagonal.shape.dim", (size_t)nm::len(s) == R-1, kid<K>, R, A1*4+A2, SIGN);
     for_<R-2>([&](auto J){ constexpr size_t P = other_pos<R,A1,A2>(J.value);
         OBLIGE("C04.diagonal.shape.other_extents_in_order", (size_t)nm::at(s,J.value) == (size_t)rd<P>(shape), kid<K>, R, A1*4+A2, J.value); });
-    OBLIGE("C04.diagonal.shape.length", (int)nm::at(s,R-2) == dlen, kid<K>, R, A1*4+A2, SIGN);
+    OBLIGE("C04.diagonal.shape.length|C02.diagonal.reported_length_fits_source", (int)nm::at(s,R-2) == dlen, kid<K>, R, A1*4+A2, SIGN);
     for_<R-1>([&](auto J){ ASSUME((size_t)rd<J.value>(idx) < (1ul<<20)); });
     // i < diagonal length, stated per axis in the form "coordinate < extent" (equivalent: i < s1 + min(off,0) and i < s2 - max(off,0))
     const size_t i = rd<R-2>(idx);
